@@ -234,6 +234,28 @@ class Rig:
                 gc.collect()
         return
 
+    def peer_reply(self, kind, cid):
+        """an unsolicited / duplicate / late CHANNEL_OPEN_FAILURE or CHANNEL_OPEN_CONFIRMATION naming `cid`"""
+        m = self.Message()
+        m.add_int(cid)
+        if kind == "fail":
+            m.add_int(1)
+            m.add_string("no")
+            m.add_string("en")
+            m.rewind()
+            self.t._parse_channel_open_failure(m)
+        else:
+            m.add_int(4242)
+            m.add_int(1 << 21)
+            m.add_int(1 << 15)
+            m.rewind()
+            self.t._parse_channel_open_success(m)
+        obj = self.held.get(cid)
+        if obj is not None and self.t._channels.get(cid) is not obj:
+            self.problems.append(("open-channel-dropped-from-map",
+                                  "peer OPEN_%s naming established id %d removed it from the channel map although "
+                                  "the channel is open" % ("FAILURE" if kind == "fail" else "CONFIRMATION", cid)))
+
     def keys(self):
         return sorted(self.t._channels._map.keys())
 
@@ -289,8 +311,12 @@ def gen_history(rng, server_mode, nops, wrap_refusal=0):
             else:
                 kind = rng.choice(["x11", "forwarded-tcpip", "auth-agent@openssh.com", "session"])
                 ops.append(("peer", kind, True, []))
-        else:
+        elif r < 0.88:
             ops.append(("del", rng.randrange(6), rng.choice(["map", "peer-close", "unlink", "gc"])))
+        else:
+            # peer-sent OPEN_FAILURE / OPEN_CONFIRMATION naming an established or an unknown id
+            ops.append(("pmsg", rng.choice(["fail", "fail", "succ"]), rng.choice(["established", "established", "unknown"]),
+                        rng.randrange(4)))
     return ops
 
 
@@ -335,8 +361,26 @@ def run_history(rig, counter, ids, ops):
         reqs.append("del %d" % v)
         impl.append("ok")
 
+    def do_pmsg(kind, target, k, reqs, impl):
+        counter = rig.t._channel_counter
+        if target == "established":
+            v = pick_victim(rig, k, counter)
+            if v is None or (kind == "succ" and isinstance(rig.held[v], Sentinel)):
+                return
+        else:
+            v = (counter + 5000 + 17 * k) % M24
+            if v in rig.held:
+                return
+        rig.peer_reply(kind, v)
+        info["peer_replies"] = info.get("peer_replies", 0) + 1
+        reqs.append("pfail %d 0" % v if kind == "fail" else "psucc %d" % v)
+        impl.append("ok")
+
     for op in ops:
       try:
+          if op[0] == "pmsg":
+              do_pmsg(op[1], op[2], op[3], reqs, impl)
+              continue
           if op[0] == "local":
               do_local(op[1], op[2], reqs, impl)
           elif op[0] == "del":
@@ -594,6 +638,7 @@ def run(ctx):
         ctx.dist("allocations-skipping-live-ids", info["skipped"])
         ctx.dist("histories-wrapping-2^24", 1 if info["wrapped"] else 0)
         ctx.dist("nested-ops-inside-server-callback", info["nested"])
+        ctx.dist("peer-open-replies-naming-established-or-unknown-ids", info.get("peer_replies", 0))
         if h % 400 == 0:
             ctx.sample({"case": case, "model_requests": reqs[:30], "impl": impl[:30]})
         for sig, detail in rig.problems[:3]:
@@ -625,7 +670,9 @@ META = {
               "other operations in between) and deletions, from any counter value below 2^24: the id returned by "
               "_next_channel is not a key of the channel map and is < 2^24 (nextChannel_fresh), the scan terminates "
               "within 2^24 iterations whenever fewer than 2^24 ids are live (nextChannel_total, pigeonhole), live ids "
-              "stay pairwise distinct and 24-bit (live_distinct_24bit), an id held by _parse_channel_open between its "
+              "stay pairwise distinct and 24-bit (live_distinct_24bit), every open channel stays in the map under peer "
+              "OPEN_FAILURE / OPEN_CONFIRMATION messages naming any id, so allocation never returns an open channel's id "
+              "(open_channels_registered, alloc_never_returns_open_id), an id held by _parse_channel_open between its "
               "two lock regions is never handed out again (pending_id_reserved) and no registration overwrites a live "
               "channel (no_collision). The model's nextChannel is proved equal to the Lean kernel translated from the "
               "source of Transport._next_channel on every run (model_eq_generated); every call site of _next_channel "
